@@ -171,6 +171,25 @@ Theorem C14_clip_only :
 Proof. move=> F solve lg ex a s v t; exact: hpf_clip_only. Qed.
 Print Assumptions C14_clip_only.
 
+(* 6b. a filter span reaching BEYOND the data (on the right): appending an unobserved, unconstrained period
+       leaves the trend on the original periods unchanged and continues it by linear extrapolation; by
+       induction the same holds for any number of appended periods.  (The mirror statement for periods
+       prepended on the left is not proved; the falsifier checks both sides on the implementation.) *)
+Theorem C14_hp_extend_right_partial :
+  forall (F : realFieldType) (n : nat) (lam : F) (data : list (option F)) (lc cc : list (nat * F))
+         (solve : forall m, 'M[F]_m -> 'cV[F]_m -> 'cV[F]_m),
+  (2 <= n)%N -> obs_at O data n = false ->
+  (forall i, (i < length lc)%N -> (cpos O lc i < n)%N) ->
+  (forall i, (i < length cc)%N -> (cpos O cc i < n)%N) ->
+  0 < lam ->
+  hp_M O n lam data lc cc *m solve _ (hp_M O n lam data lc cc) (hp_rhs O n data lc cc) = hp_rhs O n data lc cc ->
+  hp_M O (n + 1) lam data lc cc *m solve _ (hp_M O (n + 1) lam data lc cc) (hp_rhs O (n + 1) data lc cc)
+    = hp_rhs O (n + 1) data lc cc ->
+  hp_M O (n + 1) lam data lc cc \in unitmx ->
+  hp_trend_vec O solve (n + 1) lam data lc cc = extend1 (hp_trend_vec O solve n lam data lc cc).
+Proof. move=> F n lam data lc cc solve H2 Hd Hlc Hcc; exact: (hp_extend_right H2 Hd Hlc Hcc). Qed.
+Print Assumptions C14_hp_extend_right_partial.
+
 (* ---------------------------------------------------------------- lonf *)
 
 (* 7. trend + gap = data *)
